@@ -15,6 +15,13 @@ Proof. exact registry_holds_nothing. Qed.
 Theorem C20_accounted : forall children fuel h s, Accounted s -> Accounted (fst (run children fuel s h)).
 Proof. exact run_Accounted. Qed.
 
+(* declaring a domain-less variable (let(T, None) without evaluating) reads nothing and holds nothing *)
+Theorem C20_declare_holds_nothing : forall children fuel s T o,
+  live (fst (step children fuel s (DeclV T))) = live s /\ user (fst (step children fuel s (DeclV T))) = user s /\
+  g (fst (step children fuel s (DeclV T))) = g s /\
+  pinned (vars (fst (step children fuel s (DeclV T)))) o = pinned (vars s) o.
+Proof. exact declare_holds_nothing. Qed.
+
 (* without EQL evaluation over the instance: dropping the last reference reclaims it, after any history *)
 Theorem C20_no_retention : forall children fuel h o,
   no_eql h = true ->
@@ -69,3 +76,4 @@ Print Assumptions C20_cache_pins.
 Print Assumptions C20_refuted_query_cache.
 Print Assumptions C20_refuted_expr_growth.
 Print Assumptions C20_model_is_source.
+Print Assumptions C20_declare_holds_nothing.
